@@ -146,6 +146,56 @@ def cert_for(case, jolt):
     return None, None
 
 
+SEQ_FNS = dict(b_jolt="gjk_intersection_jolt", b_libccd="gjk_intersection_libccd", b_mpr="mpr_intersection",
+               b_nesterov="gjk_nesterov_accelerated_intersection",
+               b_nesterov_prim="gjk_nesterov_accelerated_primitives_intersection", jolt_full="gjk_distance_jolt")
+
+
+def history_check(R, cases, klass, tier):
+    """Histories: all boolean tests (twice) and the distance query on ONE pair of collider objects, in sequence.  Every
+    answer is judged against the certified class of the pair, and the numeric state of both colliders is compared before
+    and after every query: a query that changes its colliders makes every later answer an answer about another pair."""
+    idxs = [i for i in sorted(klass) if prim_ok(cases[i]["c1"]) and prim_ok(cases[i]["c2"])]
+    rest = [i for i in sorted(klass) if i not in set(idxs)]
+    idxs = idxs[: (60 if tier == "quick" else 500)] + rest[:: max(1, len(rest) // (60 if tier == "quick" else 500))]
+    seq_cases = []
+    for i in idxs:
+        c = cases[i]
+        prim = prim_ok(c["c1"]) and prim_ok(c["c2"])
+        order = (["b_nesterov_prim"] if prim else []) + ["b_nesterov", "b_jolt", "b_libccd", "b_mpr"]
+        ops = [dict(fn=f) for f in order] + [dict(fn="jolt_full", kw=dict(max_distance_squared=1e300))] + [dict(fn=f) for f in order]
+        seq_cases.append(dict(c1=c["c1"], c2=c["c2"], ops=ops, shared=True, meta=c["meta"]))
+    res = nb.run_cases(PID, seq_cases, tag="history")
+    stats = dict(histories=len(seq_cases), queries=0, wrong_answers=0, state_changes=0)
+    for i, c, rr in zip(idxs, seq_cases, res):
+        cls = klass[i]
+        L = c["meta"]["L"]
+        delta = float(nb.delta_of(L))
+        for k, r in enumerate(rr):
+            stats["queries"] += 1
+            site = SEQ_FNS.get(r["fn"], r["fn"])
+            hist = [o["fn"] for o in c["ops"][:k + 1]]
+            case = dict(c1=c["c1"], c2=c["c2"], meta=c["meta"], history=hist, result={kk: v for kk, v in r.items() if kk != "tb"}, cls=cls)
+            if r.get("state_changed"):
+                stats["state_changes"] += 1
+                R.failure(f"{site} changed the state of its colliders ({', '.join(r['state_changed'][:4])}): every later query on these "
+                          f"objects is answered for a different pair (query {k + 1} of the history {hist})", case, site=site)
+                break
+            if "exc" in r:
+                ans = "EXC:" + r["exc"]
+            elif r["fn"] == "jolt_full":
+                ans = "d=0" if r["d"] <= 1e-5 * L else ("d>=delta" if r["d"] >= delta - 1e-5 * L else "0<d<delta")
+            else:
+                ans = str(r["ans"])
+            expect = ("d=0" if cls == "overlap" else "d>=delta") if r["fn"] == "jolt_full" else ("True" if cls == "overlap" else "False")
+            if ans != expect:
+                stats["wrong_answers"] += 1
+                R.failure(f"{site} answered {ans} for a pair certified as {cls} when called as query {k + 1} of the history {hist} on the "
+                          f"same collider objects (expected {expect})", case, site=site)
+                break
+    R.cov["history_check"] = stats
+
+
 def loop_correspondence(R, cases, tier):
     """Model/JoltLoop.v (binary64, inside coqc) replays the support points gjk_intersection_jolt obtained,
     iteration by iteration: search directions, iteration count and the boolean answer must agree
@@ -255,7 +305,8 @@ def run(tier, seed, replay=None):
         "a collider's point set is the exact shape expression of the floats handed to its constructor; harness/narrow.py parts() is trusted for that translation",
         "pairs for which no certificate is found (band around grazing contact, flat colliders without margin in the overlap class, witness search failed) are not judged; their number is reported",
     ]
-    R.check_proofs(PROOF_FILES, build_targets=["theories/Props/C02.vo", "theories/Model/JoltLoopRun.vo", "theories/Model/GjkLibccdRun.vo"])
+    R.check_proofs(PROOF_FILES, build_targets=["theories/Props/C02.vo", "theories/Model/JoltLoopRun.vo", "theories/Model/GjkLibccdRun.vo",
+                                              "theories/Model/NesterovLoopRun.vo"])
     cases = []
     corpus = cm.VERIF / "corpus" / PID
     if replay:
@@ -350,6 +401,9 @@ def run(tier, seed, replay=None):
         R.sample(dict(c1=c["c1"], c2=c["c2"], meta=c["meta"],
                       result={r["fn"]: (r.get("ans") if "ans" in r else r.get("d", r.get("exc"))) for r in rr}))
     phase("judging")
+    if not replay:
+        history_check(R, cases, klass, tier)
+        phase("history_check")
     loop_correspondence(R, cases, tier)
     phase("jolt_correspondence")
     libccd_mpr_correspondence(R, cases, tier)
